@@ -212,6 +212,44 @@ def observe_event(ev):
         for j in range(wf.shape[0]):
             rows.append([float(wf[j, a, 1][0]) if len(wf[j, a, 1]) else None for a in range(wf.shape[1])])
         o['waveforms'] = rows
+        # narrowed accessors agree with the full table
+        for a in range(wf.shape[1]):
+            col = ev.get_waveforms(antenna_id=a)
+            got = [float(col[j, 1][0]) if len(col[j, 1]) else None for j in range(col.shape[0])]
+            if got != [rows[j][a] for j in range(len(rows))]:
+                raise Divergence('get_waveforms(antenna_id=%d) vs full table' % a, [rows[j][a] for j in range(len(rows))], got)
+        for j, name in ((0, 'direct'), (1, 'reflected'), (2, 2)):
+            rowj = ev.get_waveforms(waveform_type=name)
+            want = rows[j] if j < len(rows) else []
+            got = [float(rowj[a, 1][0]) if len(rowj[a, 1]) else None for a in range(len(rowj))] if len(rowj) else []
+            if got != want:
+                raise Divergence('get_waveforms(waveform_type=%r) vs full table' % (name,), want, got)
+    # attribute accessors agree with the dictionaries
+    if o['particles'] is not None:
+        en = [float(x) for x in ev.get_particle_info('energy')]
+        if en != [p[3] for p in o['particles']]:
+            raise Divergence("get_particle_info('energy') vs dictionaries", [p[3] for p in o['particles']], en)
+        vtx = np.asarray(ev.get_particle_info('vertex'), dtype=float)
+        if [tuple(map(float, v)) for v in vtx] != [p[1] for p in o['particles']]:
+            raise Divergence("get_particle_info('vertex') vs dictionaries", [p[1] for p in o['particles']], vtx.tolist())
+        kinds = ev.get_particle_info('interaction_info')['interaction_kind']
+        if [int(x) for x in kinds] != [p[4] for p in o['particles']]:
+            raise Divergence("get_particle_info('interaction_info') vs dictionaries", [p[4] for p in o['particles']], [int(x) for x in kinds])
+        names = list(ev.get_particle_info('particle_name'))
+        if bool(ev.is_neutrino) != ('neutrino' in names[0]) or bool(ev.is_nubar) != (o['particles'][0][0] < 0):
+            raise Divergence('is_neutrino / is_nubar of the first particle', ('neutrino' in names[0], o['particles'][0][0] < 0),
+                             (ev.is_neutrino, ev.is_nubar))
+    if o['rays'] is not None:
+        dicts = ev.get_rays_info()
+        got = [[float(d.get('path_length', 0.0)) for d in row] for row in dicts]
+        if got != o['rays']:
+            raise Divergence("get_rays_info() dictionaries vs get_rays_info('path_length')", o['rays'], got)
+        em = np.asarray(ev.get_rays_info('emitted_direction'), dtype=float)
+        for j, row in enumerate(o['rays']):
+            for a, val in enumerate(row):
+                want = [0.0, 0.6, 0.8] if val != 0.0 else [0.0, 0.0, 0.0]
+                if not np.allclose(em[j, a], want):
+                    raise Divergence("get_rays_info('emitted_direction')[%d, %d]" % (j, a), want, em[j, a].tolist())
     return o
 
 
@@ -400,6 +438,22 @@ def check_file(path, exp, level, rng=None):
         f.close()
     if all(e['particles'] is None for e in exp):
         return 0        # no particle table in the file: outside the property's domain (options that record particles)
+    # HDF5Reader.get_waveforms(event_id=...) addresses the rows of that event
+    f = open_reader(path)
+    try:
+        for i, e in enumerate(exp):
+            try:
+                got = f.get_waveforms(event_id=i)
+            except ValueError as ex:
+                if 'not saved in this file' in str(ex):
+                    break
+                raise
+            want = e['waveforms'] or []
+            rows = [[float(got[j, a, 1][0]) if len(got[j, a, 1]) else None for a in range(got.shape[1])] for j in range(got.shape[0])]
+            if rows != want:
+                raise Divergence('HDF5Reader.get_waveforms(event_id=%d)' % i, want, rows)
+    finally:
+        f.close()
     iters, idxs, slices = access_paths(n)
     if level == 'full':
         todo = iters + idxs + slices
